@@ -95,7 +95,16 @@ import time as _time
 
 
 def forked(fn, timeout=120):
-    """run fn() in a forked child and return its (JSON-serialisable) result; ('child-failed', text) when it does not deliver"""
+    """run fn() in a forked child and return its (JSON-serialisable) result; ('child-failed', text) when it does not deliver.
+    A child that does not deliver in time is run once more with a five times longer limit (a loaded machine must not turn a slow
+    execution into a verdict)."""
+    r = _forked_once(fn, timeout)
+    if isinstance(r, list) and r and r[0] == "child-failed" and "did not finish in time" in r[1]:
+        r = _forked_once(fn, 5 * timeout)
+    return r
+
+
+def _forked_once(fn, timeout):
     r, w = _os.pipe()
     pid = _os.fork()
     if pid == 0:
@@ -240,15 +249,13 @@ def pct_runs(pairs, files, nruns, depth=2, opcode=False, judge=None, seed0=0):
     for desc, job_a, job_b in pairs:
         ref = forked(lambda: [["ok", repr(job_a())], ["ok", repr(job_b())]])
         if ref and ref[0] == "child-failed":
-            problems.append((desc, -1, f"the sequential reference execution failed: {ref[1]}"))
-            continue
+            raise RuntimeError(f"concurrent stage, {desc}: the sequential reference execution failed: {ref[1]}")
         horizon = 400
         for i in range(nruns):
             r = forked(lambda: _pct_exec(seed0 + i * 7919 + 1, [job_a, job_b], files, opcode, depth, horizon))
             n += 1
             if isinstance(r, list) and r and r[0] == "child-failed":
-                problems.append((desc, i, r[1]))
-                break
+                raise RuntimeError(f"concurrent stage, {desc}, PCT execution {i}: {r[1]}")
             horizon = max(horizon, int(r.get("steps", 400) * 0.9))          # the preemption points are spread over the whole execution
             if judge is not None:
                 text = judge(r["results"][0], r["results"][1]) if r["out"] == "alldone" else r["out"]
@@ -271,14 +278,13 @@ def purity_sweep(pairs, files, kmax=300, opcode=False, stride=1, judge=None):
     for desc, job_a, job_b in pairs:
         ref = forked(lambda: [["ok", repr(job_a())], ["ok", repr(job_b())]])
         if ref and ref[0] == "child-failed":
-            problems.append((desc, -1, f"the sequential reference execution failed: {ref[1]}"))
-            continue
+            raise RuntimeError(f"concurrent stage, {desc}: the sequential reference execution failed: {ref[1]}")
         for k in range(0, kmax, stride):
             r = forked(lambda: _one_preemption(k, job_a, job_b, files, opcode))
             n += 1
             if isinstance(r, list) and r and r[0] == "child-failed":
-                problems.append((desc, k, r[1]))
-                break
+                # (executions report deadlocks, step limits and exceptions themselves: a child that delivers nothing is the harness's problem)
+                raise RuntimeError(f"concurrent stage, {desc}, execution {k}: {r[1]}")
             if judge is not None:
                 # results that are not a function of the arguments (generated identifiers): a verdict on both results together
                 text = judge(r["results"][0], r["results"][1]) if r["out"] == "alldone" else r["out"]
